@@ -213,6 +213,7 @@ func runC15(c *kit.Ctx) {
 
 	// ---- R2 ---------------------------------------------------------------
 	c.StartRule("R2", "every reader error is checked and returned", 5)
+	sendPathSharesNoMemory(c)
 	for _, fn := range nonNilFuncs(dec, readU) {
 		kit.Instrs(fn, func(in ssa.Instruction) {
 			call, ok := in.(*ssa.Call)
